@@ -87,8 +87,12 @@ func c14Exec(which int, cs hx.Sx) hx.Sx {
 		// ONE Root for the whole sequence, re-decoded for every event: this is what the pipeline's pooled events do, so the
 		// strings a checker got from the previous event are overwritten by the next one (nothing may be remembered by alias)
 		root := insaneJSON.Spawn()
+		root.ReleasePoolMem() // a decoder born with the production node pool of 16 (Spawn may hand out a recycled, grown one)
 		defer insaneJSON.Release(root)
 		for _, ev := range hx.Items(it[2]) {
+			if root.PoolSize() > 16*4 { // eventPool.resetEvent (pipeline/event.go:414) between two events of a pooled Root
+				root.ReleasePoolMem()
+			}
 			if err := root.DecodeString(hx.JSONText(ev)); err != nil {
 				return obsBadEvt
 			}
